@@ -989,12 +989,22 @@ func (x *exec) step(op Op) {
 
 var openFindings map[string]bool
 
+// isStructural: the calls that add or remove rows, columns or cells.
+var isStructural = map[string]bool{"insrow": true, "approw": true, "delrow": true, "delrows": true, "inscol": true, "appcol": true,
+	"delcol": true, "delcols": true, "mergeh": true, "mergev": true, "merger": true, "unmerge": true}
+
 func run(c Case) *kit.Result {
 	res := &kit.Result{}
 	if openFindings == nil {
 		openFindings = kit.OpenFindings("C09")
 	}
 	x := &exec{res: res, open: openFindings, i: -1}
+	if c.Via == "open" {
+		if !x.startOpened(c) {
+			return res
+		}
+		return x.history(c)
+	}
 	x.doc = document.New()
 	cfg := &document.TableConfig{Rows: c.Rows, Cols: c.Cols, Width: c.Width, ColWidths: c.ColWidths, Data: c.Data}
 	x.desc = fmt.Sprintf("%s table %dx%d widths=%v", c.Via, c.Rows, c.Cols, c.ColWidths)
@@ -1036,10 +1046,71 @@ func run(c Case) *kit.Result {
 		}
 	}
 	x.t = t
+	return x.history(c)
+}
+
+// startOpened reads the start table from the package that c.Open describes. It returns false when the case ends here.
+func (x *exec) startOpened(c Case) bool {
+	res := x.res
+	x.desc = "open a document with the described table"
+	if msg := c.Open.valid(); msg != "" {
+		res.Label("start:invalid-description")
+		res.Shape = "invalid-description"
+		return false
+	}
+	var t *document.Table
+	var mismatch string
+	var err error
+	res.Eval("C09.G1")
+	if p, st := kit.Try(func() { x.doc, t, mismatch, err = openTable(c.Open) }); p != nil {
+		x.fail("C09.G1", nil, "opening the document panicked: %v [%s]", p, st)
+		return false
+	}
+	if err != nil || mismatch != "" {
+		// the reader's fidelity is the subject of C03/C04/C06: count the case, judge nothing
+		res.Label("start:opened-not-as-written")
+		res.Count("opened-not-as-written", 1)
+		res.Shape = "opened-not-as-written"
+		return false
+	}
+	res.Label("start:opened")
+	x.opened = true
+	sh := describe(t)
+	if c.Open.ragged() {
+		res.Label("start:opened-ragged")
+		x.startRagged = true
+	}
+	if sh.merged {
+		res.Label("start:opened-merged")
+	}
+	for _, row := range c.Open.Rows {
+		for _, cell := range row {
+			if cell.Nested > 0 {
+				res.Label("start:opened-nested")
+			}
+		}
+	}
+	x.t = t
+	return true
+}
+
+// history applies the ops of the case to x.t and closes the result.
+func (x *exec) history(c Case) *kit.Result {
+	res := x.res
+	if x.opened {
+		x.shapeSig = append(x.shapeSig, "opened")
+	}
 	for i, op := range c.Ops {
 		x.i, x.op, x.absorbed, x.oor, x.status, x.desc = i, op, false, false, "", op.K
 		x.pre = DeepCopy(x.t)
 		x.sh = describe(x.pre)
+		x.preViol = map[string]bool{}
+		for _, v := range invariants(x.pre) {
+			x.preViol[v.clause] = true
+		}
+		if len(x.preViol) > 0 {
+			x.everViolating = true
+		}
 		if !x.sh.rect {
 			x.everNonRect = true
 		}
@@ -1047,6 +1118,14 @@ func run(c Case) *kit.Result {
 			x.everMerged = true
 		}
 		x.step(op)
+		if len(x.preViol) > 0 && isStructural[op.K] {
+			switch x.status {
+			case "err":
+				x.raggedRejected++
+			case "ok":
+				x.raggedAccepted++
+			}
+		}
 		if x.stop {
 			break
 		}
@@ -1076,6 +1155,15 @@ func run(c Case) *kit.Result {
 	}
 	if x.everNonRect {
 		res.Label("history:non-rectangular-state")
+	}
+	if x.everViolating {
+		res.Label("history:ragged-state")
+	}
+	if x.raggedRejected > 0 {
+		res.Label("ragged:rejected-structural-edit")
+	}
+	if x.raggedAccepted > 0 {
+		res.Label("ragged:accepted-structural-edit")
 	}
 	if x.mergeOK > 0 {
 		res.Label("history:successful-merge")
